@@ -170,6 +170,7 @@ class Seam:
         self.puts = []  # (kind, relpath) of completed data placements
         self.enabled = True
         self.idx_names = {}
+        self.read_hook = None  # called with the path of every in-world open-for-read
 
     def reset(self, root=None, order_rng=None):
         """Start a fresh sub-run in the same process (new sub-world)."""
@@ -394,6 +395,8 @@ class Seam:
             ):
                 if S.sched is not None and not isinstance(file, int) and S.inside(file):
                     S.read_point("open_r", file)
+                if S.read_hook is not None and not isinstance(file, int) and S.inside(file):
+                    S.read_hook(os.fspath(file))
                 return real_open(file, mode, *a, **kw)
             S.point("open_w", file)
             f = real_open(file, mode, *a, **kw)
